@@ -285,12 +285,15 @@ def run_memlog_lockqueue(ctx, srng):
     S = queued_scheduler()
     total = Budget(ctx.budget(25, 240))
     nviol = 0
+    done = nsched = 0
     for pi, threads in enumerate(progs):
         if total.left() <= 0 or nviol:
             break
+        done += 1
         budget = Budget(max(1.0, total.left() / (len(progs) - pi)))
         for how, (res, obs, final) in schedules(ctx, lambda ch: run_memlog_queued(S, threads, ch), srng, ctx.budget(2, 3), ctx.budget(1500, 20000),
                                                 ctx.budget(30, 500), budget):
+            nsched += 1
             case = dict(kind="memlog-queued", program=threads, schedule=res.schedule)
             ctx.case(case, nontrivial=any(res.blocked), tags=["memlog-queued:threads:%d" % len(threads), "memlog-queued:sched:" + how,
                                                               "memlog-queued:preemptions:%d" % min(res.preemptions, 4)])
@@ -299,6 +302,7 @@ def run_memlog_lockqueue(ctx, srng):
                 nviol += 1
                 ctx.violation(bad[0], dict(case, observed=dict(final=final, obs=obs), also=bad[1:4]), key=None)
                 break
+    explored(ctx, "memlog-queued", done, nsched, 4, nviol > 0)
 
 
 # ---- oracles (model-free) -------------------------------------------------------------------------
@@ -394,6 +398,23 @@ def oracle_memlog(threads, res, obs, final):
                 bad.append("flush_tracebacks (call %d, class %d) returned %s" % (c["cid"], c["tag"], o["ret"]))
     # strong oracle: sequential specification in the observed lock-acquisition order
     order = acquisition_order(res, threads)
+    if order is not None and not bad:
+        # validate() must raise exactly when a message that fails validation has been written since the last reset
+        failing = []
+        for c in order:
+            if c["meth"] == "write" and c["fails"]:
+                failing.append(c["cid"])
+            elif c["meth"] == "reset":
+                failing = []
+            elif c["meth"] == "validate":
+                o = obs.get(c["cid"]) or {}
+                raised = o.get("raised")
+                if failing and raised not in ("ValidationError", "TypeError"):
+                    bad.append("validate() (call %d) returned normally although the failing messages %s had been written before it (lock-acquisition order %s)"
+                               % (c["cid"], failing, [x["cid"] for x in order]))
+                elif not failing and raised:
+                    bad.append("validate() (call %d) raised %s although no failing message had been written since the last reset (lock-acquisition order %s)"
+                               % (c["cid"], raised, [x["cid"] for x in order]))
     if order is not None and not bad:
         em, et = seq_spec(order)
         if msgs != em or tbs != et:
@@ -735,6 +756,20 @@ def file_model_case(case, msgs, events, ops, binary):
 
 # ---- driver of one family of runs ------------------------------------------------------------------
 
+MIN_SCHEDULES = {"memlog": 200, "file": 300, "reports": 100, "serfail": 200, "memlog-queued": 300}
+
+
+def explored(ctx, family, programs, schedules, minimum, stopped_early):
+    """Record how much of a family was explored; a wall-clock cut before the fixed minimum number of programs is an
+    infrastructure problem (coverage must not shrink silently on a loaded machine), not a pass."""
+    ctx.count("explored:%s:programs" % family, n=programs)
+    ctx.count("explored:%s:schedules" % family, n=schedules)
+    need = MIN_SCHEDULES.get(family, 0)
+    if (programs < minimum or schedules < need) and not stopped_early:
+        raise InfraError("time budget exhausted before the minimum exploration: family %s ran %d of at least %d programs, %d of at least %d schedules"
+                         % (family, programs, minimum, schedules, need))
+
+
 class Budget(object):
     def __init__(self, seconds):
         self.end = time.time() + seconds
@@ -783,12 +818,15 @@ def run(ctx):
     model_in, model_ctx = [], []
     nviol = 0
     progs = gen_programs(rng, nprog, not ctx.quick)
+    done = nsched = 0
     for pi, (fam, threads) in enumerate(progs):
         if total.left() <= 0 or nviol >= 3:
             break
+        done += 1
         per = Budget(max(1.0, total.left() / max(1, (len(progs) - pi)) * 2))
         found = False
         for how, (res, obs, final) in schedules(ctx, lambda ch: run_memlog(S, threads, ch), srng, bound, dfs_limit, nrandom, per):
+            nsched += 1
             case = dict(kind="memlog", program=threads, schedule=res.schedule)
             nontriv = interleaved(res, len(threads)) and any(res.blocked)
             ctx.case(case, nontrivial=nontriv, tags=["memlog:family:" + fam, "memlog:threads:%d" % len(threads), "memlog:sched:" + how,
@@ -805,6 +843,7 @@ def run(ctx):
             model_ctx.append((case, threads, obs, final, exact))
             if found:
                 break
+    explored(ctx, "memlog", done, nsched, 12, nviol > 0)  # at least the fixed small programs
     # the model on the same schedules
     if model_in:
         answers = lean_driver("Driver/C16.lean", model_in)
@@ -849,12 +888,15 @@ def run_files(ctx, S, srng, broken):
     model_in, model_ctx = [], []
     nviol = 0
     try:
+        done = nsched = 0
         for ci, fc in enumerate(cases):
             if total.left() <= 0 or nviol >= 2:
                 break
+            done += 1
             fc = dict(fc, tmp=tmp)
             per = Budget(max(1.0, total.left() / (len(cases) - ci) * 2))
             for how, (res, msgs, events, raw, errors) in schedules(ctx, lambda ch: run_file(S, fc, ch), srng, bound, dfs_limit, nrandom, per):
+                nsched += 1
                 case = dict(kind="file", file={k: v for k, v in fc.items() if k != "tmp"}, schedule=res.schedule)
                 order = [e[0] for e in events if e[1] == "write"]
                 blocks = [k for k, _ in itertools.groupby([e[0] for e in events])]
@@ -875,6 +917,7 @@ def run_files(ctx, S, srng, broken):
             os.rmdir(tmp)
         except OSError:
             pass
+    explored(ctx, "file", done, nsched, 6, nviol > 0)
     if model_in:
         answers = lean_driver("Driver/C16.lean", model_in)
         agree = 0
@@ -977,12 +1020,15 @@ def run_reports(ctx, srng):
     S = report_scheduler()
     total = Budget(ctx.budget(20, 200))
     nviol = 0
+    done = nsched = 0
     for pi, per in enumerate([[1, 1], [2, 1]] + ([] if ctx.quick else [[1, 1, 1], [2, 2]])):
         if total.left() <= 0 or nviol:
             break
+        done += 1
         budget = Budget(max(1.0, total.left() / 2))
         for how, (res, obs) in schedules(ctx, lambda ch: run_reports_once(S, per, ch), srng, ctx.budget(2, 3), ctx.budget(250, 4000),
                                          ctx.budget(20, 300), budget):
+            nsched += 1
             case = dict(kind="reports", per=per, schedule=res.schedule)
             ctx.case(case, nontrivial=res.preemptions >= 1, tags=["reports:threads:%d" % len(per), "reports:sched:" + how,
                                                                   "reports:preemptions:%d" % min(res.preemptions, 4)])
@@ -991,6 +1037,7 @@ def run_reports(ctx, srng):
                 nviol += 1
                 ctx.violation(bad[0], dict(case, observed=obs, also=bad[1:3]), key=None)
                 break
+    explored(ctx, "reports", done, nsched, 2, nviol > 0)
 
 
 # ---- real side: serialization failures from several threads through one Logger -------------------------
@@ -1091,12 +1138,15 @@ def run_serfail(ctx, srng):
     total = Budget(ctx.budget(20, 200))
     plans = [[[True], [True]], [[False], [False]], [[True, False], [False]], [[False, True], [True, True]]] + ([] if ctx.quick else [[[True], [True], [True]], [[True, True], [False, True], [True]]])
     nviol = 0
+    done = nsched = 0
     for pi, plan in enumerate(plans):
         if total.left() <= 0 or nviol:
             break
+        done += 1
         budget = Budget(max(1.0, total.left() / (len(plans) - pi)))
         for how, (res, obs) in schedules(ctx, lambda ch: run_serfail_once(S, plan, ch), srng, ctx.budget(2, 3), ctx.budget(200, 4000),
                                          ctx.budget(15, 300), budget):
+            nsched += 1
             case = dict(kind="serfail", plan=plan, schedule=res.schedule)
             ctx.case(case, nontrivial=res.preemptions >= 1, tags=["serfail:threads:%d" % len(plan), "serfail:sched:" + how,
                                                                   "serfail:preemptions:%d" % min(res.preemptions, 4)])
@@ -1105,6 +1155,7 @@ def run_serfail(ctx, srng):
                 nviol += 1
                 ctx.violation(bad[0], dict(case, observed=obs, also=bad[1:3]), key=None)
                 break
+    explored(ctx, "serfail", done, nsched, 4, nviol > 0)
 
 
 # ---- replay ------------------------------------------------------------------------------------------
